@@ -295,3 +295,90 @@ def scaled_values_reach_the_driver_on_the_grid(ctx):
     caller passed"""
     from sa.rules import c03
     c03.grid_quotient_is_rounded(ctx)
+
+
+def _tp12(test):
+    neg = False
+    t = test
+    while isinstance(t, ast.UnaryOp) and isinstance(t.op, ast.Not):
+        neg = not neg
+        t = t.operand
+    s = src(t)
+    if isinstance(t, ast.Compare) and len(t.ops) == 1 and isinstance(t.ops[0], ast.IsNot) and src(t.comparators[0]) == 'None':
+        s, neg = f'{src(t.left)} is None', not neg
+    if isinstance(t, ast.Compare) and len(t.ops) == 1 and isinstance(t.ops[0], ast.NotIn):
+        s, neg = f'{src(t.left)} in {src(t.comparators[0])}', not neg
+    return s, neg
+
+
+def _on(cfg, t, truth):
+    core, neg = _tp12(t.ast)
+    return cfg.reach([t.id], labels={'T' if truth != neg else 'F'}, avoid=[t.id])
+
+
+@rule('C12.R8', min_instances=5)
+def update_messages_are_decoded_by_kind(ctx):
+    """receive loop: an update / reply of UPDATE_MESSAGES reaches updateValue (on the side where the parameter is known); for an
+    error message the error is rebuilt from data[0:2], the value is None and the time stamp comes from data[2]; for a value
+    message the value is data[0], the time stamp comes from data[1] and the error is None - decided on the two sides of the
+    `startswith(ERRORPREFIX)` test; updateValue imports the value exactly when there is no error; ProxyClient.callback really
+    calls every registered function"""
+    m = ctx.m
+    rx = next((f for n_, f in __import__('sa.rules.c11', fromlist=['x'])._thread_entries(m).items() if 'rx' in n_), None)
+    if rx is None:
+        raise AnchorMissing('receive thread not found')
+    ctx.analysed(rx)
+    cfg = CFG(rx.node, m, rx.module)
+    upd = {i for c in calls_in(rx.node) if call_attr(c) == 'updateValue' for i in cfg.node_of(c)}
+    if not upd:
+        raise AnchorMissing('updateValue call not found in the receive thread', violation=f'{rx.qualname}:updates reach updateValue')
+    n = 0
+    for t in cfg.nodes:
+        if t.kind != 'test':
+            continue
+        core, neg = _tp12(t.ast)
+        if core == 'action in UPDATE_MESSAGES':
+            n += 1
+            ctx.check(upd <= _on(cfg, t, True) and not (upd & _on(cfg, t, False) - _on(cfg, t, True)), f'{rx.qualname}:update messages reach updateValue', t.ast,
+                      'updateValue on the side where the action is an update message',
+                      f'`{src(t.ast)}`: updates are skipped (the cache never changes) and other messages are fed to updateValue', rx)
+        if core == 'module_param is None' and not isinstance(t.ast, ast.BoolOp) and upd & (_on(cfg, t, True) | _on(cfg, t, False)):
+            n += 1
+            ctx.check(upd <= _on(cfg, t, False) and not (upd & _on(cfg, t, True) - _on(cfg, t, False)), f'{rx.qualname}:updateValue for known parameters', t.ast,
+                      'updateValue on the side where the parameter was found', f'`{src(t.ast)}`: updateValue runs for unknown parameters only', rx)
+        if core.endswith('.startswith(ERRORPREFIX)') and (upd & cfg.reach([t.id])):
+            owner = getattr(t.ast, 'cfg_owner', None)
+            if not isinstance(owner, ast.If):
+                continue
+            errb, valb = (owner.orelse, owner.body) if neg else (owner.body, owner.orelse)
+            assigns = {}
+            for side, block in (('err', errb), ('val', valb)):
+                for a in [x for st in block for x in walk_local(st) if isinstance(x, ast.Assign) and isinstance(x.targets[0], ast.Name)]:
+                    if a.targets[0].id in ('timestamp', 'readerror', 'value'):
+                        assigns[(side, a.targets[0].id)] = src(a.value)
+            if not assigns:
+                continue
+            n += 1
+            want = {('err', 'value'): lambda s_: s_ == 'None', ('err', 'readerror'): lambda s_: 'make_secop_error' in s_ and 'data[0:2]' in s_,
+                    ('err', 'timestamp'): lambda s_: s_.startswith('data[2]'), ('val', 'value'): lambda s_: s_ == 'data[0]',
+                    ('val', 'readerror'): lambda s_: s_ == 'None', ('val', 'timestamp'): lambda s_: s_.startswith('data[1]')}
+            bad = [f'{k[0]}:{k[1]}={assigns.get(k)}' for k, ok_ in want.items() if k not in assigns or not ok_(assigns[k])]
+            ctx.check(not bad, f'{rx.qualname}:error and value messages are decoded from the right fields', t.ast,
+                      'error: (None, make_secop_error(*data[0:2]), data[2].t)   value: (data[0], None, data[1].t)',
+                      f'`{src(t.ast)}`: fields decoded on the wrong side or from the wrong index: {bad} - the cache entry is not the import of the message', rx)
+    if n < 3:
+        raise AnchorMissing('update decoding tests not found in the receive thread')
+    uv = m.method(roles.CLIENT, 'updateValue', inherited=False)
+    ctx.analysed(uv)
+    cfgu = CFG(uv.node, m, uv.module)
+    imp = {i for c in calls_in(uv.node) if call_attr(c) == 'import_value' for i in cfgu.node_of(c)}
+    for t in cfgu.nodes:
+        if t.kind == 'test' and _tp12(t.ast)[0] == 'readerror':
+            ctx.check(bool(imp) and imp <= _on(cfgu, t, False) and not (imp & _on(cfgu, t, True) - _on(cfgu, t, False)), f'{uv.qualname}:value imported iff there is no error', t.ast,
+                      'import_value on the no-error side', f'`{src(t.ast)}`: the value is imported only for error messages (None) and stored raw for value messages', uv)
+    cb = m.method('frappy.client.ProxyClient', 'callback', inherited=False)
+    ctx.analysed(cb)
+    loops = [x for x in body_walk(cb.node) if isinstance(x, ast.For)]
+    called = any(isinstance(c.func, ast.Name) and c.func.id == src(l.target) and any(isinstance(a, ast.Starred) for a in c.args) for l in loops for c in calls_in(l))
+    ctx.check(called, f'{cb.qualname}:every registered function is called', cb.node, 'for cbfunc in list(cblist): cbfunc(*args)',
+              'callback() never calls the registered functions: no callback sees any message', cb)
